@@ -380,9 +380,10 @@ impl FixedCapacityMemoryPool {
     }
 
     /// Distance between consecutive blocks in the arena: every block must be able to hold
-    /// the free-list header that is written into it while it is free.
+    /// the free-list header that is written into it while it is free, and every block
+    /// must start on an `alignment` boundary.
     fn block_stride(&self) -> usize {
-        let a = std::mem::align_of::<BlockHeader>();
+        let a = self.config.alignment.max(std::mem::align_of::<BlockHeader>());
         let min = self.config.max_block_size.max(std::mem::size_of::<BlockHeader>());
         (min + a - 1) & !(a - 1)
     }
